@@ -71,8 +71,10 @@ Definition run_case (c : case) : bool :=
 
 EQUI_SYM = ["l.a = r.a", "l.b = r.b", "l.c = r.c", "substr(l.a,1,1) = substr(r.a,1,1)"]
 EQUI_ASYM = ["l.a = r.b", "l.b = r.c"]
-FILTERS = ["l.c <> r.c", "l.a is not null", "(l.c = r.c or l.b = r.b)", "length(l.b) = length(r.b)",
+# symmetric in l/r (for jobs with several tables, see the known finding on random aliases)
+FILTERS = ["l.c <> r.c", "l.a is not null and r.a is not null", "(l.c = r.c or l.b = r.b)", "length(l.b) = length(r.b)",
            "coalesce(l.c, 'u') = coalesce(r.c, 'u')"]
+FILTERS_ASYM = ["l.a is not null", "l.c < r.c", "length(l.a) < length(r.a)"]
 COLS = ["a", "b", "c"]
 
 
@@ -81,7 +83,7 @@ def gen_rule(rng, dedupe, need_key=False):
     pool = EQUI_SYM + (EQUI_ASYM if dedupe else [])
     parts = rng.sample(pool, nk)
     if rng.random() < 0.45 or not parts:
-        parts.append(rng.choice(FILTERS))
+        parts.append(rng.choice(FILTERS + (FILTERS_ASYM if dedupe else [])))
     if rng.random() < 0.15 and not need_key:
         return " or ".join(rng.sample(EQUI_SYM, 2))          # no equi-join part can be extracted
     rng.shuffle(parts)
@@ -95,7 +97,7 @@ def gen_case(rng, backend):
     dom = {"a": ["x", "y", "xz", "x", None], "b": ["p", "q", "x", None], "c": ["u", "v", None, None]}
     tables = []
     for t in range(ntab):
-        n = rng.randint(4, 9) if ntab == 1 else rng.randint(2, 6)
+        n = rng.randint(5, 10) if ntab == 1 else rng.randint(2, 6)
         ids = rng.sample(range(1, 15), n)
         tables.append([{"unique_id": i, **{c: rng.choice(dom[c]) for c in COLS}} for i in ids])
     for c in COLS:
@@ -103,7 +105,7 @@ def gen_case(rng, backend):
             tables[0][0][c] = dom[c][0]
     dedupe = lt == "dedupe_only"
     return {"backend": backend, "link_type": lt, "names": names, "tables": tables,
-            "rule": gen_rule(rng, dedupe), "rules": [gen_rule(rng, dedupe) for _ in range(rng.choice([1, 2, 2, 3, 4]))],
+            "rule": gen_rule(rng, dedupe), "rules": [gen_rule(rng, dedupe) for _ in range(rng.choice([1, 2, 2, 3, 3, 4]))],
             "top_rule": gen_rule(rng, dedupe, need_key=True), "n_largest": rng.choice([1, 2, 3, 5])}
 
 
@@ -338,3 +340,33 @@ def build(case, res):
                 bad.append(("n_largest", f"block_count {x['block_count']} != {x['count_l']} * {x['count_r']}"))
     ev.con.close()
     return terms, labels, bad, obl
+
+
+# ---------------------------------------------------------------------------- known finding witness
+WITNESS = {"link_type": "link_and_dedupe", "rule": "l.a is not null", "names": ["ta", "tb", "tc"],
+           "tables": [[{"unique_id": 3, "a": "x", "b": None, "c": None}], [{"unique_id": 7, "a": None, "b": None, "c": None}],
+                      [{"unique_id": 12, "a": "x", "b": None, "c": None}]]}
+
+
+def replay_witness(backend="duckdb", calls=10):
+    """-> (reproduced, counts, predict_count)"""
+    from splink.blocking_analysis import count_comparisons_from_blocking_rule
+    case = dict(WITNESS, backend=backend)
+    frames = []
+    for rows in case["tables"]:
+        d = pd.DataFrame(rows, columns=["unique_id", "a"])
+        d["a"] = d["a"].astype("string")
+        frames.append(d)
+    counts = []
+    for _ in range(calls):
+        api = su.make_api(backend)
+        r = count_comparisons_from_blocking_rule(table_or_tables=frames, blocking_rule=case["rule"],
+                                                 link_type=case["link_type"], db_api=api)
+        counts.append(int(r["number_of_comparisons_to_be_scored_post_filter_conditions"]))
+    import splink.comparison_library as cl
+    from splink import SettingsCreator
+    s = SettingsCreator(link_type=case["link_type"], comparisons=[cl.ExactMatch("a")],
+                        blocking_rules_to_generate_predictions=[case["rule"]])
+    lk = su.linker(frames, s, backend, aliases=case["names"])
+    want = len(lk.inference.predict().as_record_dict())
+    return any(c != want for c in counts), counts, want
